@@ -9,3 +9,7 @@ pub mod common;
 
 #[cfg(all(kani, feature = "c17"))]
 pub mod c17;
+#[cfg(all(kani, feature = "c07"))]
+pub mod c07;
+#[cfg(all(kani, feature = "c08"))]
+pub mod c08;
